@@ -629,3 +629,118 @@ def norm_ret(prog, ret):
         v, f = ret
         return (jax.tree_util.tree_map(lambda t: jnp.where(f, t, jnp.zeros_like(t)), v), jnp.asarray(f))
     return jax.tree_util.tree_map(one, ret, is_leaf=lambda x: isinstance(x, Mask))
+
+
+# --------------------------------------------------------------------------
+# scan-derived combinators: references are the documented Python loops
+
+
+def step_fn():
+    """x -> z ~ normal(x, 1) @ "z"; return x + 0.5 z + 1    (not the identity)"""
+    N = Dist("normal")
+    return Static("step", [("z", N, lambda a, r: (a[0], _f(1.0)))], lambda a, r: a[0] + 0.5 * r[0] + 1.0, (_f(0.2),))
+
+
+def step_det():
+    """x -> b ~ flip(0.4) @ "b"; return 2x + 1   (value does not depend on the choice)"""
+    F = Dist("flip")
+    return Static("stepdet", [("b", F, lambda a, r: (_f(0.4),))], lambda a, r: 2.0 * a[0] + 1.0, (_f(0.2),))
+
+
+def acc_fn():
+    """(c, x) -> z ~ normal(c + x, 1); return 0.5 z + x"""
+    N = Dist("normal")
+    return Static("accf", [("z", N, lambda a, r: (a[0] + a[1], _f(1.0)))], lambda a, r: 0.5 * r[0] + a[1], (_f(0.2), _f(0.7)))
+
+
+def _loop_ref(F, n, argsfn, collect):
+    """Shared reference loop: F applied n times; argsfn(carry, i, a) -> F args; collect(carries, a) -> retval."""
+
+    def ref(a, vals):
+        carry = a[0]
+        carries, per = [carry], []
+        score = 0.0
+        for i in range(n):
+            r = F.ref(argsfn(carry, i, a), [v[i] for v in vals])
+            carry = r.retval
+            carries.append(carry)
+            per.append(r)
+            score = score + r.score
+        terms = [jnp.stack([o.terms[j] for o in per]) for j in range(len(F.sites))]
+        present = [jnp.stack([jnp.asarray(o.present[j]) for o in per]) for j in range(len(F.sites))]
+        return RefOut(score, collect(carries, a), terms, present)
+
+    return ref
+
+
+def Accumulate(F, n):
+    xs = jnp.stack([F.args[1] + 0.5 * i for i in range(n)])
+    ref = _loop_ref(F, n, lambda c, i, a: (c, a[1][i]), lambda cs, a: jnp.stack(cs))
+    return Prog(f"accumulate{n}({F.name})", F.gf.accumulate(), (F.args[0], xs), _stack_sites(F, n), ref, lambda *sa: [],
+                frozenset({"update", "project"}), F.depth + 2, "derived", {"inner": F, "n": n})
+
+
+def Reduce(F, n):
+    xs = jnp.stack([F.args[1] + 0.5 * i for i in range(n)])
+    ref = _loop_ref(F, n, lambda c, i, a: (c, a[1][i]), lambda cs, a: cs[-1])
+    return Prog(f"reduce{n}({F.name})", F.gf.reduce(), (F.args[0], xs), _stack_sites(F, n), ref, lambda *sa: [],
+                frozenset({"update", "project"}), F.depth + 2, "derived", {"inner": F, "n": n})
+
+
+def Iterate(F, n):
+    ref = _loop_ref(F, n, lambda c, i, a: (c,), lambda cs, a: jnp.stack(cs))
+    return Prog(f"iterate{n}({F.name})", F.gf.iterate(n=n), (F.args[0],), _stack_sites(F, n), ref, lambda *sa: [],
+                frozenset({"update", "project"}), F.depth + 2, "derived", {"inner": F, "n": n})
+
+
+def IterateFinal(F, n):
+    ref = _loop_ref(F, n, lambda c, i, a: (c,), lambda cs, a: cs[-1])
+    return Prog(f"iterate_final{n}({F.name})", F.gf.iterate_final(n=n), (F.args[0],), _stack_sites(F, n), ref, lambda *sa: [],
+                frozenset({"update", "project"}), F.depth + 2, "derived", {"inner": F, "n": n})
+
+
+def _masked_loop_ref(F, n, final):
+    def ref(a, vals):
+        x, mask = a
+        xs, per_t, per_p = [x], [[] for _ in F.sites], [[] for _ in F.sites]
+        score = 0.0
+        for i in range(n):
+            r = F.ref((x,), [v[i] for v in vals])
+            m = mask[i]
+            score = score + jnp.where(m, r.score, 0.0)
+            if final:
+                x = jnp.where(m, r.retval, x)  # documented: a masked-off step leaves the value unchanged
+            else:
+                x = r.retval
+            xs.append(x)
+            for j in range(len(F.sites)):
+                per_t[j].append(jnp.where(m, r.terms[j], 0.0))
+                per_p[j].append(jnp.logical_and(m, r.present[j]))
+        terms = [jnp.stack(t) for t in per_t]
+        present = [jnp.stack(p_) for p_ in per_p]
+        return RefOut(score, xs[-1] if final else jnp.stack(xs), terms, present)
+
+    return ref
+
+
+def MaskedIterateFinal(F, n):
+    return Prog(f"masked_iterate_final{n}({F.name})", F.gf.masked_iterate_final(), (F.args[0], jnp.array([True, False, True][:n])), _stack_sites(F, n),
+                _masked_loop_ref(F, n, True), lambda *sa: [], frozenset({"update"}), F.depth + 3, "derived", {"inner": F, "n": n})
+
+
+def MaskedIterate(F, n):
+    return Prog(f"masked_iterate{n}({F.name})", F.gf.masked_iterate(), (F.args[0], jnp.array([True, False, True][:n])), _stack_sites(F, n),
+                _masked_loop_ref(F, n, False), lambda *sa: [], frozenset({"update"}), F.depth + 3, "derived", {"inner": F, "n": n})
+
+
+def derived_catalogue():
+    return {
+        "accumulate(accf)": lambda: Accumulate(acc_fn(), 3),
+        "reduce(accf)": lambda: Reduce(acc_fn(), 3),
+        "iterate(step)": lambda: Iterate(step_fn(), 3),
+        "iterate_final(step)": lambda: IterateFinal(step_fn(), 3),
+        "iterate_final(stepdet)": lambda: IterateFinal(step_det(), 2),
+        "masked_iterate_final(step)": lambda: MaskedIterateFinal(step_fn(), 3),
+        "masked_iterate_final(stepdet)": lambda: MaskedIterateFinal(step_det(), 3),
+        "masked_iterate(step)": lambda: MaskedIterate(step_fn(), 3),
+    }
